@@ -198,7 +198,9 @@ func c13(args []string) error {
 				probe.AutoAlphabet()
 				okIn = probe.Alphabet() == alpha
 			}
-			if tmpd, e := os.MkdirTemp("", "c13cli"); okIn && e == nil {
+			if !okIn {
+				// nothing to run (and no directory to leave behind)
+			} else if tmpd, e := os.MkdirTemp("", "c13cli"); e == nil {
 				inf := filepath.Join(tmpd, "in.fa")
 				var b strings.Builder
 				for k := range inN {
